@@ -64,6 +64,18 @@ class VfsGen:
                 req = r.choice(['a.sqf', 'sub/c.sqf', '../a.sqf', 'inc.hpp', '../../other/a.sqf'])
             kind = r.weighted([('info', 6), ('load', 2), ('exec', 1), ('pre', 1)]) if k != 'relative' else r.weighted([('info', 3), ('inc', 2)])
             reqs.append((kind, cur_v, cur_p, req))
+        if len(mappings) == 1 and mappings[0][0] in ('d1', 'd2') and mappings[0][1] not in ('/', ):
+            # includes two deep across directories: a file included from sub/ includes its neighbour in sub/, not the file of
+            # the same name beside the outermost file
+            d, virt = mappings[0]
+            v = virt.replace('\\', '/')
+            v = ('/' + v if not v.startswith('/') else v).rstrip('/')
+            files['%s/nest_m.hpp' % d] = '#include "sub/nest_a.hpp"\n'
+            files['%s/sub/nest_a.hpp' % d] = 'ga = 1;\n#include "nest_b.hpp"\n'
+            files['%s/sub/nest_b.hpp' % d] = 'gx = 7001;\n'
+            files['%s/nest_b.hpp' % d] = 'gx = 7002;\n'
+            reqs.append(('ninc', '', '', v + '/nest_m.hpp'))
+            self.note('req:nested-include')
         return files, mappings, reqs
 
 
